@@ -493,4 +493,76 @@ Section KProofs.
       + intros e He. cbn in He. rewrite upd_same in He. destruct He.
       + intros q Hq. cbn in Hq. rewrite Efin in Hq. destruct Hq.
   Qed.
+
+  (** unlock: m_Mutex.unlock() *)
+  Lemma safe_unlock R t (k : V -> prog R) l Q :
+    v_lk l = LHeld -> (forall v, safe t (k v) (vlk l LNone) Q) ->
+    safe t (Act (@a_unlock (St S) (Res S) P) k) l Q.
+  Proof.
+    intros Hl K. cbn [Conc.safe]. intros g a tr [HL HR] Hv. pose proof (view_lk Hv) as Elk. rewrite Hl in Elk.
+    unfold a_unlock; cbn [fst snd].
+    assert (Hes : Forall neutral_ev [EvAcc KSt obj_lock true]) by (repeat constructor).
+    exists (set_lk a t LNone). split; [|split; [apply frame_set_lk|rewrite view_set_lk, Hv; apply K]].
+    destruct HL as [L1 L2 (h & L3 & L4)].
+    assert (Hoth : forall t0, t0 <> t -> x_lk a t0 = LNone).
+    { intros t0 Hne. destruct (x_lk a t0) eqn:E; auto; exfalso; apply Hne; apply L2; congruence. }
+    split.
+    - split.
+      + intros _ t0. cbn. unfold upd. destruct (Nat.eqb_spec t0 t); auto.
+      + intros t1 t2 H1 H2. cbn in H1, H2. unfold upd in *.
+        destruct (Nat.eqb_spec t1 t), (Nat.eqb_spec t2 t); subst; auto; try congruence;
+          exfalso; apply H1; apply Hoth; assumption.
+      + exists h. split; [rewrite mon_app, L3; apply neutral_mon; exact Hes|].
+        intros t0. cbn. unfold upd. destruct (Nat.eqb_spec t0 t) as [->|Hne]; [|apply L4].
+        split; [discriminate|]. intros E. apply L4 in E. congruence.
+    - destruct HR as [Hlost|HR]; [left; apply lost_mono; exact Hlost|right].
+      apply Rest_set_lk.
+      + eapply Rest_neutral; [exact HR|apply neutral_set_lock|exact Hes].
+      + intros e He. destruct e as [[q o] z]. destruct (r_held HR t q o z He) as (A & _). congruence.
+      + intros q Hq. destruct (r_fin HR t q Hq) as (A & _). congruence.
+  Qed.
+
+  (** the combiner reads a request word: a pending request it sees stays pending until it executes it *)
+  Lemma safe_ld_req R t r (k : V -> prog R) l Q :
+    v_lk l = LInside -> v_fin l = [] ->
+    (forall v, v < 2 -> safe t (k (vN v)) l Q) ->
+    (forall v x, 2 <= v -> safe t (k (vN v)) (vheld l ((r, v, x) :: v_held l)) Q) ->
+    safe t (Act (@a_ld (St S) (Res S) P r FReq) k) l Q.
+  Proof.
+    intros Hl Hf K1 K2. cbn [Conc.safe]. intros g a tr Hi Hv.
+    pose proof (view_lk Hv) as Elk. rewrite Hl in Elk. pose proof (view_fin Hv) as Efin. rewrite Hf in Efin.
+    unfold a_ld; cbn [fst snd get_fld].
+    pose proof (Inv_neutral t (es := acc g KLd r FReq true) Hi eq_refl (neutral_upd_refl g) (acc_neutral g KLd r FReq true)) as Hi'.
+    destruct (le_lt_dec 2 (r_req (g_recs g r))) as [Hge|Hlt].
+    - pose proof (view_held Hv) as Eheld.
+      exists (set_held a t ((r, r_req (g_recs g r), r_arg (g_recs g r)) :: v_held l)).
+      split; [|split; [apply frame_set_held|rewrite view_set_held, Hv; apply K2; exact Hge]].
+      destruct Hi' as [HL HR]. split; [apply LkInv_set_held; exact HL|].
+      destruct HR as [Hlost|HR]; [left; exact Hlost|right].
+      destruct HR. split; try assumption.
+      intros t0 q o z Hin. cbn in Hin. unfold upd in Hin. destruct (Nat.eqb_spec t0 t) as [->|Hne]; [|apply r_held0; exact Hin].
+      destruct Hin as [E|Hin]; [|apply r_held0; rewrite Eheld; exact Hin]. inversion E; subst q o z.
+      rewrite Efin. repeat split; auto.
+    - exists a. split; [exact Hi'|]. split; [apply frame_refl|]. rewrite Hv. apply K1. exact Hlt.
+  Qed.
+
+  (** loop 2 of compact_list reads nState: a record seen `removed` has no owner, for ever *)
+  Lemma safe_ld_state_cand R t r (k : V -> prog R) l Q :
+    (forall v, v <> st_removed -> safe t (k (vN v)) l Q) ->
+    safe t (k (vN st_removed)) (vcand l (Some r)) Q ->
+    safe t (Act (@a_ld (St S) (Res S) P r FState) k) l Q.
+  Proof.
+    intros K1 K2. cbn [Conc.safe]. intros g a tr Hi Hv. unfold a_ld; cbn [fst snd get_fld].
+    pose proof (Inv_neutral t (es := acc g KLd r FState true) Hi eq_refl (neutral_upd_refl g) (acc_neutral g KLd r FState true)) as Hi'.
+    destruct (Nat.eq_dec (r_state (g_recs g r)) st_removed) as [E|Hne].
+    - exists (set_cand a t (Some r)). rewrite E.
+      split; [|split; [apply frame_set_cand|rewrite view_set_cand, Hv; exact K2]].
+      destruct Hi' as [HL HR]. split; [apply LkInv_set_cand; exact HL|].
+      destruct HR as [Hlost|HR]; [left; exact Hlost|right].
+      destruct HR. split; try assumption.
+      intros t0 r0 Hc. cbn in Hc. unfold upd in Hc. destruct (Nat.eqb_spec t0 t) as [->|Hn]; [|apply (r_cand0 t0); exact Hc].
+      inversion Hc; subst r0. split; [apply r_removed0; exact E|].
+      destruct (le_lt_dec (g_nrec g) r) as [Hle|Hlt]; [|exact Hlt]. exfalso. apply (r_fresh0 r Hle). exact E.
+    - exists a. split; [exact Hi'|]. split; [apply frame_refl|]. rewrite Hv. apply K1. exact Hne.
+  Qed.
 End KProofs.
